@@ -173,7 +173,11 @@ def admin_variant(rec, path, rng, fail, cnt):
             warnings.simplefilter('error', RuntimeWarning)
             if route == 'select':
                 # sensitivities requested by name on the model itself
-                model.enable_sensitivities(True, [pub[q - 1] for q in subset])
+                # (the names are listed in a shuffled order, one of them twice: the derivatives come back in the PUBLISHED
+                # parameter order all the same)
+                req = [pub[q - 1] for q in subset]
+                req = [req[q] for q in rng.permutation(len(req))] + req[:1]
+                model.enable_sensitivities(True, req)
                 out, sens = model.simulate(values.copy(), times.copy())
             else:
                 red = chi.ReducedMechanisticModel(model)
